@@ -2,9 +2,9 @@
    Tiling and termination are proved for every text (C05_tokens_tile, through the refinement
    C05_scan_is_stream_scan of the exact 3-slot-ring lexer to a lexer on plain texts, and
    C05_every_token_consumes); the rune reader delivers every rune once at its line and column
-   (C05_reader_positions).  Token positions are the position of the first rune read for the token, which
-   is not the first character for string-like tokens and EOF: those two statements are refuted below, and
-   the finite statement C05_tiling_positions_upto3 covers positions of all other tokens on short texts. *)
+   (C05_reader_positions).  C05_positions: every token that is not string-like and not EOF carries the line and
+   column of the first rune of its extent, for every NUL-free text.  For string-like tokens and EOF the statement
+   is false of the code: refuted below (known findings, both pinned by existing tests). *)
 From InfluxQL Require Import Base.Prelude Lex.Token Lex.Reader Lex.Scanner Proofs.ReaderProofs Proofs.LexBounded
   Lex.StreamLex Proofs.RingAt Proofs.RingRefine Proofs.StreamTile Proofs.LexTiling.
 
@@ -19,11 +19,14 @@ Theorem C05_tokens_tile : forall ulower s, nz s ->
 Proof. exact lexer_tiles. Qed.
 Print Assumptions C05_tokens_tile.
 
-(* one Scan of the exact lexer (3-slot ring, pushback, CR folding), from any state whose remaining input is the
-   text t with at most two runes pushed back, returns the token and literal the plain-text lexer computes from t
-   and leaves the remaining input that lexer leaves - for every t, NUL runes included *)
-Theorem C05_scan_is_stream_scan : forall ulower r t, at_ r t -> r_n r <= 2 ->
-  tl_of (fst (scan ulower r)) = fst (s_scan ulower t) /\ at_ (snd (scan ulower r)) (snd (s_scan ulower t)).
+(* [at_ T r t]: the exact reader r (3-slot ring with recorded positions, pushback count, CR folding, line/column
+   state) is a cursor into the CR-folded text T and will deliver the text t from now on.
+   One Scan from any such state with at most two runes pushed back returns the token and literal the plain-text
+   lexer computes from t and leaves the remaining input that lexer leaves - for every t, NUL runes included - and,
+   unless the token is string-like, its position is the position the reader recorded for the first rune of t *)
+Theorem C05_scan_is_stream_scan : forall T ulower r t, at_ T r t -> r_n r <= 2 ->
+  tl_of (fst (scan ulower r)) = fst (s_scan ulower t) /\ at_ T (snd (scan ulower r)) (snd (s_scan ulower t)) /\
+  (strtok (fst (fst (fst (scan ulower r)))) = false -> slot_at T t (fst (sread t), snd (fst (fst (scan ulower r))))).
 Proof. exact ref_scan. Qed.
 Print Assumptions C05_scan_is_stream_scan.
 
@@ -34,9 +37,24 @@ Theorem C05_every_token_consumes : forall ulower t, canon t ->
 Proof. exact s_scan_progress. Qed.
 Print Assumptions C05_every_token_consumes.
 
+(* positions, for every text without NUL runes: token i of the exact lexer, unless it is string-like
+   (STRING, BADSTRING, BADESCAPE: finding C05-string-pos) or EOF (finding C05-eof-col), reports the zero-based line
+   and column ([lc], CR/CRLF already folded to one line break) of the first rune of its extent - the rune that
+   follows the extents of tokens 0..i-1 *)
+Theorem C05_positions : forall ulower s, nz s ->
+  forall i tok pos lit,
+    nth_error (fst (scan_all ulower (S (length (fold_cr s))) (new_reader s) [])) i = Some (tok, pos, lit) ->
+    strtok tok = false -> tok <> EOF ->
+    pos = lc (fold_cr s) (length (concat (map snd (firstn i (s_scan_all ulower (S (length (fold_cr s))) (fold_cr s)))))).
+Proof. exact lexer_positions. Qed.
+Print Assumptions C05_positions.
+
 (* the initial state is related to the folded text; non-vacuity of the hypotheses above *)
-Example C05_start : forall s, at_ (new_reader s) (strip (fold_cr s)) /\ r_n (new_reader s) <= 2.
+Example C05_start : forall s, at_ (fold_cr s) (new_reader s) (strip (fold_cr s)) /\ r_n (new_reader s) <= 2.
 Proof. intros s. split; [apply at_new|cbn; lia]. Qed.
+(* and the position function on a two-line text: the rune after CR LF is at line 1, column 0 *)
+Example C05_lc : lc (fold_cr [97; 13; 10; 98]) 2 = mkPos 1 0.
+Proof. reflexivity. Qed.
 
 (* every rune of a NUL-free text, of any length, is delivered exactly once, in order, CR/CRLF folded,
    and recorded at its zero-based line and column *)
